@@ -24,7 +24,7 @@ ASSUMPTIONS = ["annotations are arbitrary tuples and are not required to equal t
 EXPECTED_LABELS = ["entries-exact", "symmetric", "sums-to-one", "repeatable", "overall-degree-variant"]
 VALIDATE_EVERY = 200
 POOL = [(1, 1), (2, 1), (1, 3)]
-NAMES = ["2-clique", "3-clique-blue"]
+NAMES = ["2-clique", "2-clique-red"]  # one name is a prefix of the other
 
 
 def configs(tier):
